@@ -85,7 +85,7 @@ type vc15Key struct {
 	F                    uint8
 }
 
-func vc15DrawEntry(t *rapid.T, label string) (e *querylog.Entry, k vc15Key) {
+func vc15DrawEntry(t *rapid.T, label string) (e *querylog.Entry, k vc15Key, both bool) {
 	var labels []string
 	nl := rapid.IntRange(1, 4).Draw(t, label+"Labels")
 	for i := 0; i < nl; i++ {
@@ -140,13 +140,28 @@ func vc15DrawEntry(t *rapid.T, label string) (e *querylog.Entry, k vc15Key) {
 		e.RequestResult, k.F = &filter.ResultModifiedRequest{List: id, Rule: text}, 6
 	}
 
-	return e, k
+	// Both stages: a request-stage result and, independently, a response-stage
+	// one with its own list and rule.  The request-stage verdict is the one
+	// that is logged (code, list and rule).
+	both = false
+	if (kind == 1 || kind == 3 || kind == 5) && rapid.Bool().Draw(t, label+"Both") {
+		both = true
+		rid := filter.ID(rapid.SampledFrom([]string{"adguard_dns_filter", "custom", "safe_browsing"}).Draw(t, label+"RespList"))
+		rtext := filter.RuleText(vc15DrawText(t, label+"RespRule", vc15RuleAlphabet, 3))
+		if rapid.Bool().Draw(t, label+"RespBlocked") {
+			e.ResponseResult = &filter.ResultBlocked{List: rid, Rule: rtext}
+		} else {
+			e.ResponseResult = &filter.ResultAllowed{List: rid, Rule: rtext}
+		}
+	}
+
+	return e, k, both
 }
 
 func vc15Concurrent(tt *testing.T, part string, perWriterMax int) {
 	st := vstat.New("C15", part,
 		"rapid: 16 goroutines x 1-N generated entries (names and rule texts needing JSON escaping, line feeds inside rule texts, long rules, optional client address) written through one querylog.FileSystem after a start barrier; non-trivial = at least two writers were inside Write at the same time (measured); distinct by the multiset of written keys",
-		"overlap>=2", "rule-with-linefeed", "long-line>4096", "with-ip", "without-ip")
+		"overlap>=2", "both-stages-result", "rule-with-linefeed", "long-line>4096", "with-ip", "without-ip")
 	st.Finish(tt)
 
 	dir := tt.TempDir()
@@ -168,7 +183,11 @@ func vc15Concurrent(tt *testing.T, part string, perWriterMax int) {
 		for w := 0; w < vc15Writers; w++ {
 			n := rapid.IntRange(1, perWriterMax).Draw(t, fmt.Sprintf("w%dN", w))
 			for i := 0; i < n; i++ {
-				e, k := vc15DrawEntry(t, fmt.Sprintf("w%de%d", w, i))
+				e, k, both := vc15DrawEntry(t, fmt.Sprintf("w%de%d", w, i))
+				if both {
+					classes["both-stages-result"] = true
+				}
+
 				entries[w] = append(entries[w], e)
 				want = append(want, fmt.Sprintf("%+v", k))
 				if strings.Contains(k.M, "\n") {
